@@ -528,6 +528,9 @@ func randomRequest(r *rand.Rand, t tableCase, profile string) reqSpec {
 			rq.Clen, rq.Clh = 0, ""
 		}
 	}
+	if n := strings.Count(rq.Path, "/"); n >= 2 && r.Intn(12) == 0 {
+		rq.EscSlash = 2 + r.Intn(n-1) // one of the inner slashes travels as %2F
+	}
 	for k := 1; k <= 2; k++ {
 		if r.Intn(100) < 60 {
 			rq.Conds = append(rq.Conds, k)
